@@ -2,7 +2,6 @@
 Built-in span-level token classes.
 """
 
-import html
 import re
 import mistletoe.span_tokenizer as tokenizer
 from mistletoe import core_tokens, token
@@ -242,7 +241,7 @@ class EscapeSequence(SpanToken):
 
     @classmethod
     def strip(cls, string):
-        return html.unescape(cls.pattern.sub(r'\1', string))
+        return tokenizer.unescape(cls.pattern.sub(r'\1', string))
 
 
 class LineBreak(SpanToken):
